@@ -211,3 +211,7 @@ impl transmission::interest::Provider for IncomingConnectionFlowController {
             .transmission_interest(query)
     }
 }
+
+#[cfg(all(aws_s2n_quic_verif, any(test, all(kani, feature = "testing"))))]
+#[path = "/verif/harness/transport/rx_conn_flow.rs"]
+mod verif;
